@@ -34,6 +34,21 @@ CHECKS = {
                 note="Bounded: k<=1 (quick) / k<=2 (thorough) deviations, W<=3, 4-5 trials, 4 levels; process layer of LocalBackend "
                      "replaced by scripted workers with immediate kills; simulator-backend configurations are covered under C10.",
                 technique="stateless model checking of the implementation (deviation-bounded enumeration of environment answers, replayed choice prefixes)"),
+    "C02": dict(engine="tunerx", category="model_checking", design_ref="§2 C02",
+                text="Stateless deviation-bounded exploration of the real Tuner.run + real fetch_status_results over scripted workers: "
+                     "every batching of output per poll, completion lag, output written between a pause/stop decision and the kill, "
+                     "merge order; schedulers = a decision-script scheduler replaying every word over {CONTINUE,PAUSE,STOP} up to the "
+                     "bound, and the shipped stopping / pause-resume schedulers; oracle = ground-truth emission list per run vs "
+                     "on_trial_result calls and results-log rows.",
+                note="Bounded: k<=1 (quick) / k<=2 (thorough), W=2, 3-4 trials, 3-4 levels, decision words <=3 (quick) / <=4 (thorough); "
+                     "file layer of LocalBackend replaced by in-memory append-only output; simulator delivery is checked under C10.",
+                technique="stateless model checking of the implementation (deviation-bounded enumeration of environment answers, ground-truth differential oracle)"),
+    "C20": dict(engine="tunerx", category="model_checking", design_ref="§2 C20",
+                text="Stateless deviation-bounded exploration of the real Tuner.run with delete_checkpoints on/off over an in-memory "
+                     "checkpoint store for all pause-resume schedulers (promotion, PASHA, cost, synchronous HB with its removal callback, "
+                     "DEHB, PBT, speculative early removal); oracle on every delete_checkpoint / resume_trial / copy_checkpoint.",
+                note="Bounded: k<=1 (quick) / k<=2 (thorough), W in {2,3}, 5-6 trials, 4 levels; shutil-level behaviour of LocalBackend not exercised.",
+                technique="stateless model checking of the implementation (deviation-bounded enumeration of poll batchings and merge orders)"),
 }
 
 NOT_YET = {}
